@@ -38,6 +38,11 @@ def check_sat(formulas, timeout_ms=None, want_model=False, use_cvc5=True):
         return 'unsat', None, dt, 'z3'
     if r == z3.sat:
         return 'sat', (s.model() if want_model else None), dt, 'z3'
+    dd = os.environ.get('PV_DUMP_DIR')
+    if dd:
+        os.makedirs(dd, exist_ok=True)
+        with open(os.path.join(dd, 'q%04d.smt2' % STATS['queries']), 'w') as f:
+            f.write(s.to_smt2())
     if not use_cvc5:
         return 'unknown', None, dt, 'z3'
     # z3 gave up: hand the same query to cvc5
@@ -130,8 +135,24 @@ def forall(vs, body, patterns=None):
     """Quantifier with E-matching patterns; falls back to z3's own choice when a pattern is not expressible
     (a term containing if-then-else, e.g. a map updated under a condition)."""
     if patterns:
-        try:
-            return z3.ForAll(vs, body, patterns=[z3.simplify(p) for p in patterns])
-        except z3.Z3Exception:
-            pass
+        ps = [z3.simplify(p) for p in patterns]
+        if not any(_has_ite(p) for p in ps):
+            try:
+                return z3.ForAll(vs, body, patterns=ps)
+            except z3.Z3Exception:
+                pass
     return z3.ForAll(vs, body)
+
+
+def _has_ite(t):
+    todo, seen = [t], set()
+    while todo:
+        x = todo.pop()
+        if x.get_id() in seen:
+            continue
+        seen.add(x.get_id())
+        if z3.is_app(x):
+            if x.decl().kind() == z3.Z3_OP_ITE:
+                return True
+            todo.extend(x.children())
+    return False
